@@ -22,6 +22,7 @@ size_t vh_wrap_raw(const uint8_t *doc, size_t n, unsigned variant, uint8_t *out,
 int vh_enumerate(int shard, int nshards, const char *tier);
 void vh_dump_stats(const char *path);
 void vh_set_quiet(int q);
+uint64_t vh_digest(const uint8_t *data, size_t n, int *nontrivial);
 }
 
 static std::vector<uint8_t> slurp(const char *p) {
@@ -65,6 +66,29 @@ int main(int argc, char **argv) {
             }
             return 1;
         }
+        return 0;
+    }
+    if (argc >= 4 && !strcmp(argv[1], "--digest")) {
+        // corpus file: repeated [u32 len][bytes]; output: per scenario [u64 digest][u8 nontrivial]
+        std::vector<uint8_t> c = slurp(argv[2]);
+        FILE *o = fopen(argv[3], "wb");
+        if (!o) return 2;
+        size_t i = 0, k = 0;
+        while (i + 4 <= c.size()) {
+            uint32_t n;
+            memcpy(&n, &c[i], 4);
+            i += 4;
+            if (i + n > c.size()) break;
+            int nt = 0;
+            uint64_t d = vh_digest(c.data() + i, n, &nt);
+            uint8_t b = (uint8_t)nt;
+            fwrite(&d, 8, 1, o);
+            fwrite(&b, 1, 1, o);
+            i += n;
+            k++;
+        }
+        fclose(o);
+        printf("%zu scenarios\n", k);
         return 0;
     }
     bool sig_only = argc >= 3 && !strcmp(argv[1], "--sig");
